@@ -110,6 +110,33 @@ def extract():
     i_step = newton.find("step_inf_norm <= step_threshold")
     if not (0 < i_conv < i_solve < i_step):
         raise ExtractError("newton.rs: stopping tests not found in the expected order")
+    # Call structure of the text front-end's solve methods (executor.rs, impl ConstraintSystem):
+    # each method's body contains exactly one call of another solve function; record
+    # (method, callee, explicit type argument or the literal config argument).
+    executor = read("kcl-ezpz/src/textual/executor.rs")
+    methods = []
+    for name in ["solve_no_metadata", "solve_no_metadata_inner", "solve", "solve_with_config_analysis",
+                 "solve_with_config", "solve_with_config_inner"]:
+        m = re.search(r"\bfn\s+" + name + r"\s*(?:<[^>]*>)?\s*\(", executor)
+        if not m:
+            raise ExtractError(f"executor.rs: fn {name}")
+        i = executor.index("{", m.end())
+        depth, j = 0, i
+        while True:
+            if executor[j] == "{": depth += 1
+            elif executor[j] == "}":
+                depth -= 1
+                if depth == 0: break
+            j += 1
+        body = executor[i:j]
+        calls = re.findall(r"(crate::solve\w*|self\s*\.\s*solve\w*)\s*(?:::<\s*(\w+)\s*>)?\s*\(\s*([^;]*?)\)\s*[?;]?", body)
+        calls = [(re.sub(r"\s+", "", a), b, re.sub(r"\s+", "", cargs)) for a, b, cargs in calls]
+        if len(calls) != 1:
+            raise ExtractError(f"executor.rs: fn {name}: expected exactly one solve call, found {calls}")
+        callee, targ, cargs = calls[0]
+        arg = targ if targ else ("Default::default()" if cargs.startswith("Default::default(") else "")
+        methods.append((name, callee, arg))
+    c["TEXT_METHODS"] = methods
     return c
 
 def render(c):
@@ -130,6 +157,9 @@ def render(c):
     L.append("def RESIDUAL_DIM : List (String × Nat) := [" + ", ".join(f'("{v}", {int(c["RESIDUAL_DIM"][v])})' for v in c["VARIANTS"]) + "]")
     L.append("/-- Cargo features of the `faer` dependency (no `rayon` ⇒ sequential linear algebra). -/")
     L.append("def FAER_FEATURES : List String := [" + ", ".join(f'"{v}"' for v in c["FAER_FEATURES"]) + "]")
+    L.append("/-- Call structure of the text front-end's solve methods: (method, the one solve function it")
+    L.append("calls, explicit type argument / literal config argument). -/")
+    L.append("def TEXT_METHODS : List (String × String × String) := [" + ", ".join(f'("{a}", "{b}", "{d}")' for a, b, d in c["TEXT_METHODS"]) + "]")
     L.append("")
     L.append("end Ezpz.Gen")
     return "\n".join(L) + "\n"
